@@ -510,6 +510,14 @@ def rule_d(ctx):
                       "apply:%s:flag-iff-push" % f, pcalls[0][1]["span"], ap.id,
                       "the flag write must be control-equivalent with the push")
             order_push[f] = cbb
+            # each push is decided by its own style field and by no other (the preformat mark belongs to the <pre> element,
+            # not to its white-space value; a colour does not depend on the white-space mode, ...)
+            own = {"colour": "colour", "bgcolour": "bg_colour", "white_space": "white_space", "preformat": "internal_pre"}[f]
+            fs = set()
+            for (a, s2) in ap.cdeps_transitive(cbb):
+                fs |= {x2[2] for x2 in ap.atoms(ap.term(a)["discr"]) if x2[0] == "field" and "ComputedStyle" in str(x2[1])}
+            ctx.check(fs == {own}, "C09-D", "apply:%s:decided-by-%s-only" % (f, own), pcalls[0][1]["span"], ap.id,
+                      "the push is decided by the style fields %s; it must depend on `%s` alone" % (sorted(fs), own))
         ucalls = uw.calls(lambda cd, t: ends(cd, RTRAIT + po))
         if ctx.check(len(ucalls) == 1, "C09-D", "unwind:%s:one-pop" % f, uw.span, uw.id, "%d pop calls" % len(ucalls)):
             ubb = ucalls[0][0]
